@@ -286,6 +286,33 @@ Proof. intros k n x nx Hl _ P _ _. destruct (lookup_chain_mk _ k n Hl) as (c & t
 
 (* the chain of defect 41 with the handler block marked: the driver does not merge blocks 1 and 2, and by the theorem whatever
    it does keeps the walks *)
+(* every chain whose targets are later... any blocks of the chain except block 0, or exits (negative): the hypotheses of the theorem hold *)
+Definition chain_wf (spec : list ((Z * Z) * bool)) : Prop :=
+  Forall (fun p => fst (fst p) < Z.of_nat (length spec) /\ snd (fst p) < Z.of_nat (length spec) /\ fst (fst p) <> 0 /\ snd (fst p) <> 0) spec.
+Lemma in_chain_graph spec k n : In (k, n) (chain_graph spec) ->
+  exists t f c, n = mk (Leaf k false) t f c /\ In ((t, f), c) spec /\ 0 <= k < Z.of_nat (length spec).
+Proof.
+  unfold chain_graph. intros H. apply in_map_iff in H as ([i [[t f] c]] & E & I). injection E as <- <-. exists t, f, c. split; [reflexivity|].
+  split; [exact (in_combine_r _ _ _ _ I)|]. apply in_combine_l in I. apply in_map_iff in I as (j & <- & J). apply in_seq in J. lia.
+Qed.
+Theorem chain_hypotheses spec : chain_wf spec ->
+  edges_ok (chain_graph spec) /\ unused_from (chain_graph spec) (Z.of_nat (length spec)) /\ no_pred (chain_graph spec) 0.
+Proof.
+  intros W. unfold chain_wf in W. rewrite Forall_forall in W. split; [apply chain_edges_ok|]. split.
+  - intros m' Hm. split.
+    + destruct (lookup (chain_graph spec) m') as [n|] eqn:L; [|reflexivity]. apply lookup_in in L. apply in_chain_graph in L as (t & f & c & _ & _ & R). lia.
+    + intros k n I. apply in_chain_graph in I as (t & f & c & -> & I & _). specialize (W _ I). cbn [fst snd] in W. cbn [mk g_true g_false]. lia.
+  - intros k n L. apply lookup_in in L. apply in_chain_graph in L as (t & f & c & -> & I & _). specialize (W _ I). cbn [fst snd] in W.
+    unfold points_to. cbn [mk g_true g_false]. destruct (Z.eqb_spec t 0); [lia|]. destruct (Z.eqb_spec f 0); [lia|]. reflexivity.
+Qed.
+(* the passes on any such chain (of at least one block): every walk is kept *)
+Theorem struct_keeps_chain_walks spec fuel : chain_wf spec -> spec <> [] ->
+  same_walks (chain_graph spec) 0 (fst (struct fuel (chain_graph spec) (Z.of_nat (length spec)) 0)) (snd (struct fuel (chain_graph spec) (Z.of_nat (length spec)) 0)).
+Proof.
+  intros W NE. destruct (chain_hypotheses spec W) as (A & B & C). apply struct_keeps_walks; try assumption. destruct spec; [congruence|]. cbn [length]. lia.
+Qed.
+Print Assumptions struct_keeps_chain_walks.
+
 (* a chain whose second block is marked as handler code but entered from the first block only: the passes merge all three
    blocks into block 4, and by the theorem every walk still ends where it did *)
 Definition d41_spec : list ((Z * Z) * bool) := [((2, 1), false); ((-1, 2), true); ((-3, -1), false)].
